@@ -479,3 +479,90 @@ fn main() {
     if (flag) { x = x * scale; }
 }
 """)
+
+
+# ---- regression programs for recorded findings (valid WGSL; they keep each finding observed) ----
+add("const_expr_comparison", """
+const A: i32 = 14;
+const F: bool = A > 10;
+@compute @workgroup_size(1)
+fn main() { var x = F; }
+""")
+
+add("const_expr_float_conversion", """
+const A: i32 = 14;
+const C: f32 = f32(A) / 2.0;
+@compute @workgroup_size(1)
+fn main() { var x = C; }
+""")
+
+add("negative_private_initializer", """
+var<private> p: i32 = -5i;
+var<private> q: f32 = -(1.5);
+@compute @workgroup_size(1)
+fn main() { p = p + 1; q = q * 2.0; }
+""")
+
+add("pointer_param_compound_assign", """
+fn bump(p: ptr<function, i32>) { *p += 2; }
+fn inc(p: ptr<function, i32>) { (*p)++; }
+@compute @workgroup_size(1)
+fn main() { var x = 1; bump(&x); inc(&x); }
+""")
+
+add("pointer_param_swizzle", """
+fn h(p: ptr<function, vec4<u32>>) -> vec3<u32> { return (*p).wxw; }
+@compute @workgroup_size(1)
+fn main() { var v = vec4<u32>(1u, 2u, 3u, 4u); let r = h(&v); }
+""")
+
+add("pointer_param_swizzle_chain", """
+fn h(p: ptr<function, vec3<u32>>) -> u32 { return (*p).xy.x; }
+@compute @workgroup_size(1)
+fn main() { var v = vec3<u32>(1u, 2u, 3u); let r = h(&v); }
+""")
+
+add("jumps_nested_in_continuing", """
+fn f(n: i32) -> i32 {
+    var i = 0;
+    var t = 0;
+    loop {
+        if (i >= n) { break; }
+        continuing {
+            i++;
+            var j = 0;
+            loop {
+                j++;
+                if (j > 2) { break; }
+                if (j == 1) { continue; }
+                t += j;
+            }
+            switch (i) {
+                case 1: { t += 1; break; }
+                default: {}
+            }
+        }
+    }
+    return t;
+}
+@compute @workgroup_size(1)
+fn main() { let v = f(3); }
+""")
+
+add("discard_in_continuing", """
+fn f(n: i32) {
+    var i = 0;
+    loop {
+        if (i >= n) { break; }
+        continuing {
+            i++;
+            if (i == 2) { discard; }
+        }
+    }
+}
+@fragment
+fn fs() -> @location(0) vec4<f32> {
+    f(3);
+    return vec4<f32>(1.0);
+}
+""")
